@@ -694,6 +694,11 @@ impl Mp4TrackWriter {
         trak.mdia.minf.stbl.co64 = Some(Co64Box::default());
         match config.media_conf {
             MediaConfig::AvcConfig(ref avc_config) => {
+                if avc_config.seq_param_set.len() < 4 {
+                    return Err(Error::InvalidData(
+                        "sequence parameter set is shorter than its 4-byte header",
+                    ));
+                }
                 trak.tkhd.set_width(avc_config.width);
                 trak.tkhd.set_height(avc_config.height);
 
